@@ -223,8 +223,18 @@ def gen_history(rng, info, hid, maxops):
             order = list(tr.builders[b]["topos"])
             rng.shuffle(order)
             add(["formulate", b, order if rng.random() < 0.6 else []])
-    if ops[-1][0] != "formulate":
+    if rng.random() < 0.35:
+        # formulate, extend the adapter of the SAME builder, formulate again: the second model must be the one a fresh
+        # builder with the extended adapter returns (a result cached at the first formulate() must not survive)
         b = rng.randrange(len(tr.builders))
+        v = tr.builders[b]["variant"]
+        add(["formulate", b, []])
+        if rng.random() < 0.6:
+            add(["permutate", b])
+        else:
+            add(["regtopo", b, rng.randrange(inf["n_topos"][v])])
+    if ops[-1][0] != "formulate":
+        b = ops[-1][1] if ops[-1][0] in ("permutate", "regtopo") else rng.randrange(len(tr.builders))
         add(["formulate", b, []])
     return {"id": hid, "reaction": name, "ops": ops}
 
@@ -524,6 +534,13 @@ def main_search(seed, n, maxops, workdir, full_seed_matrix=False):
                                                      ["new", 0], ["assigndecay", 1, _dk[1][0], 1, "tuple"],
                                                      ["formulate", 1, []], ["assigndecay", 0, _dk[0][0], 0, "tuple"],
                                                      ["formulate", 0, []]]})
+    # formulate, extend the adapter of the SAME builder (permutate / register), formulate again; a second builder takes
+    # the direct route to the same configuration
+    fixed.append({"reaction": "jpsi_gpipi_hel", "ops": [["new", 0], ["stable", 0, [0, 1, 2]], ["formulate", 0, []],
+                                                       ["permutate", 0], ["formulate", 0, []], ["new", 0],
+                                                       ["stable", 1, [0, 1, 2]], ["permutate", 1], ["formulate", 1, []]]})
+    fixed.append({"reaction": "lc_pkpi_hel", "ops": [["new", 0], ["formulate", 0, []], ["permutate", 0], ["formulate", 0, []],
+                                                    ["align", 0, 1], ["formulate", 0, []]]})
     for k, h in enumerate(fixed):
         h["id"] = n + k
         hists.append(h)
